@@ -89,7 +89,8 @@ func debugGetLocal(L *LState) int {
 }
 
 func debugGetMetatable(L *LState) int {
-	L.Push(L.GetMetatable(L.CheckAny(1)))
+	// ldblib.c db_getmetatable: the raw metatable; only the base library's getmetatable honours __metatable
+	L.Push(L.metatable(L.CheckAny(1), true))
 	return 1
 }
 
